@@ -380,6 +380,8 @@ func NewReader(r io.Reader) *Reader {
 	}
 }
 
+// commentMetaline handles a "##" line. It returns a nil feature and a nil
+// error when the line only updates the reader's metadata.
 func (r *Reader) commentMetaline(line []byte) (f feat.Feature, err error) {
 	fields := bytes.Split(line, []byte{' '})
 	if len(fields) < 1 {
@@ -395,13 +397,13 @@ func (r *Reader) commentMetaline(line []byte) (f feat.Feature, err error) {
 			return nil, &csv.ParseError{Line: r.line, Err: ErrNotHandled}
 		}
 		r.Version = Version
-		return r.Read()
+		return nil, nil
 	case "source-version":
 		if len(fields) <= 1 {
 			return nil, &csv.ParseError{Line: r.line, Err: ErrBadMetaLine}
 		}
 		r.SourceVersion = string(bytes.Join(fields[1:], []byte{' '}))
-		return r.Read()
+		return nil, nil
 	case "date":
 		if len(fields) <= 1 {
 			return nil, &csv.ParseError{Line: r.line, Err: ErrBadMetaLine}
@@ -412,7 +414,7 @@ func (r *Reader) commentMetaline(line []byte) (f feat.Feature, err error) {
 				return nil, err
 			}
 		}
-		return r.Read()
+		return nil, nil
 	case "Type", "type":
 		if len(fields) <= 1 {
 			return nil, &csv.ParseError{Line: r.line, Err: ErrBadMetaLine}
@@ -421,7 +423,7 @@ func (r *Reader) commentMetaline(line []byte) (f feat.Feature, err error) {
 		if len(fields) > 2 {
 			r.Name = string(fields[2])
 		}
-		return r.Read()
+		return nil, nil
 	case "sequence-region":
 		if len(fields) <= 3 {
 			return nil, &csv.ParseError{Line: r.line, Err: ErrBadMetaLine}
@@ -514,6 +516,12 @@ func (r *Reader) Read() (f feat.Feature, err error) {
 			continue
 		} else if bytes.HasPrefix(line, []byte("##")) {
 			f, err = r.commentMetaline(line[2:])
+			if f == nil && err == nil {
+				// The line only updated the metadata: read on. (Looping
+				// here rather than recursing keeps the stack flat over
+				// long runs of such lines.)
+				continue
+			}
 			return
 		} else if line[0] != '#' { // ignore comments
 			break
